@@ -36,9 +36,17 @@
  ***************************************************************************************************)
 EXTENDS Naturals, Integers, Sequences, FiniteSets, TLC
 
+\* Defect switches (EngDefects; each names a slip the properties must exclude - tools/mcconf.py ENGINE_DEFECTS runs a bounded
+\* instance with it set and TLC must refute the property named):
+\*   "validate-before-alias"            C16  send-time size check made before the alias resolution the packet is encoded with
+\*   "pubrec-nomatch-terminal"          C04  any PUBREC reason code other than Success ends a QoS 2 publish (0x10 is not a failure)
+\*   "alloc-cleared-on-every-connack"   C06  the allocated-id table is emptied on a resumed session too
+\*   "qos2-bypasses-receive-maximum"    C09  the receive-maximum gate only looks at QoS 1
+\*   "resubmit-unsorted"                C10  the retransmission queue keeps the order the close handling left it in
 CONSTANTS PidMax,      \* packet identifiers are 1..PidMax (65535 in the code)
           TPS,         \* ticks per second
-          UnitsOn      \* TRUE: check Service plans against the unit model of the buffer
+          UnitsOn,     \* TRUE: check Service plans against the unit model of the buffer
+          EngDefects   \* defect switches (empty for the code as it is): bounded instances with one of them set must be refuted
 
 None == -1             \* "absent" for ids and times (all ids and times are >= 0)
 
@@ -114,12 +122,23 @@ NewOp(kind, a) ==
     [kind |-> kind, qos |-> a.qos, dup |-> FALSE, pid |-> 0, apid |-> a.apid, pubrel |-> FALSE,
      user |-> a.user, key |-> a.key, slowv |-> 0, intr |-> 0, pingBase |-> None, tmo |-> a.tmo,
      topic |-> a.topic, ualias |-> a.ualias, retain |-> a.retain, need |-> a.need, units |-> a.units,
-     n |-> a.n, clean |-> a.clean, cid |-> a.cid]
+     plen |-> a.plen, n |-> a.n, clean |-> a.clean, cid |-> a.cid]
 
 NoAttrs == [qos |-> 0, apid |-> 0, user |-> FALSE, key |-> 0, tmo |-> None, topic |-> "", ualias |-> 0,
-            retain |-> FALSE, need |-> "none", units |-> 1, n |-> 0, clean |-> FALSE, cid |-> ""]
+            retain |-> FALSE, need |-> "none", units |-> 1, plen |-> -1, n |-> 0, clean |-> FALSE, cid |-> ""]
 
 IsAckable(o) == o.kind \in {"sub", "unsub"} \/ (o.kind = "pub" /\ o.qos > 0)
+
+\* Exact size on the wire of a PUBLISH that carries nothing but topic, payload and (MQTT 5) possibly a topic alias
+\* (plen: payload bytes; -1: the size of this operation is only modelled as a class).  res: its alias resolution.
+\*   fixed header 1 + remaining length (variable byte integer) + [2 + topic, unless the alias replaces it] + [2 packet id]
+\*   + (MQTT 5) property length 1 + [3: Topic Alias property] + payload
+SizeExact(o) == o.kind = "pub" /\ ~o.pubrel /\ o.plen >= 0
+VbiLen(n) == IF n < 128 THEN 1 ELSE IF n < 16384 THEN 2 ELSE IF n < 2097152 THEN 3 ELSE 4
+PubWire(ver, o, res) ==
+    LET var == 2 + (IF res.skip THEN 0 ELSE Len(o.topic)) + (IF o.qos > 0 THEN 2 ELSE 0)
+               + (IF ver = 5 THEN 1 + (IF res.alias # 0 THEN 3 ELSE 0) ELSE 0) + o.plen
+    IN 1 + VbiLen(var) + var
 
 ----------------------------------------------------------------------------------------------------
 \* events (the observable vocabulary of the monitors; same record shapes as the recorded traces)
@@ -155,7 +174,8 @@ EvTx(s, o, partial, res) ==
         ka |-> IF ty = "CONNECT" THEN s.cfg.ka ELSE -1,
         ohash |-> IF ty = "CONNECT" THEN 7 ELSE -1,
         rc |-> 0, partial |-> IF partial THEN 1 ELSE 0,
-        size |-> IF o.need = "oversize" THEN 1000 ELSE 10,
+        size |-> IF isPub /\ SizeExact(o) THEN PubWire(s.cfg.ver, o, res) ELSE IF o.need = "oversize" THEN 1000 ELSE 10,
+        exact |-> IF isPub /\ SizeExact(o) THEN 1 ELSE 0,
         variant |-> o.need]
 
 ----------------------------------------------------------------------------------------------------
@@ -382,7 +402,8 @@ HasPendingAck(s) == DOMAIN s.pendPub # {} \/ DOMAIN s.pendNon # {}
 PassesReceiveMaximum(s, id) ==
     ~(/\ s.settings.known
       /\ Cardinality(DOMAIN s.pendPub) >= s.settings.rm
-      /\ id \in DOMAIN s.ops /\ s.ops[id].kind = "pub" /\ s.ops[id].qos # 0)
+      /\ id \in DOMAIN s.ops /\ s.ops[id].kind = "pub"
+      /\ (IF "qos2-bypasses-receive-maximum" \in EngDefects THEN s.ops[id].qos = 1 ELSE s.ops[id].qos # 0))
 
 \* dequeue_operation: [id, s]
 Dequeue(s, mode) ==
@@ -446,11 +467,14 @@ ResetOutAlias(s, max) ==
 \* validate_packet_outbound_internal reduced to the capability / size class the packet needs
 \* vfail: (trace validation only) ids the recorded call failed for a reason the size class cannot
 \* express; believed only when the server announced a maximum packet size at all
-LastChanceOk(s, id, o, vfail) ==
+\* res: the alias resolution the packet will be encoded with - its size on the wire depends on it
+\*   defect "validate-before-alias": the size is judged as if no alias were used (resolution computed after validation)
+LastChanceOk(s, id, o, res, vfail) ==
     IF o.kind \notin {"pub", "sub", "unsub"} \/ (o.kind = "pub" /\ o.pubrel) THEN TRUE
     ELSE /\ o.need \notin {"badfilter", "nolocalshared"}
          /\ (o.need = "oversize" => ~s.settings.smallMps)
-         /\ ~(id \in vfail /\ s.settings.mps < 268435455)
+         /\ (SizeExact(o) => PubWire(s.cfg.ver, o, IF "validate-before-alias" \in EngDefects THEN [skip |-> FALSE, alias |-> 0] ELSE res) <= s.settings.mps)
+         /\ ~(id \in vfail /\ ~SizeExact(o) /\ s.settings.mps < 268435455)
          /\ (o.kind = "pub" => /\ o.qos <= s.settings.mqos
                                /\ (o.retain => s.settings.ret))
          /\ (o.need = "wild" => s.settings.wild)
@@ -489,7 +513,7 @@ SvcLoop(s, mode, plan, evs, wrote, vfail) ==
              IF b.err # "ok" THEN out(b.s, b.err)
              ELSE LET o == b.s.ops[d.id]
                       r == ResolveAlias(b.s, o)
-                  IN IF ~LastChanceOk(r.s, d.id, o, vfail) THEN
+                  IN IF ~LastChanceOk(r.s, d.id, o, [skip |-> r.skip, alias |-> r.alias], vfail) THEN
                          LET s3 == IF r.alias # 0 /\ ~r.skip THEN ResetOutAlias(r.s, IF r.s.settings.known THEN r.s.settings.tam ELSE 0) ELSE r.s
                              f == Fail([s3 EXCEPT !.cur = None], d.id, "PacketValidationFailure", "service")
                          IN IF f.err # "ok" THEN [s |-> f.s, res |-> f.err, evs |-> evs \o f.evs, plan |-> plan, wrote |-> wrote, valid |-> TRUE]
@@ -606,7 +630,7 @@ Negotiate(s, p) ==
 
 \* apply_session_present_to_connection: [s, err, evs]
 ApplySessionPresent(s, sp) ==
-    LET r1 == IF sp THEN [s |-> s, err |-> "ok", evs |-> <<>>]
+    LET r1 == IF sp THEN [s |-> IF "alloc-cleared-on-every-connack" \in EngDefects THEN [s EXCEPT !.alloc = EmptyFn] ELSE s, err |-> "ok", evs |-> <<>>]
               ELSE LET keep == Retained(s, s.resubQ)
                        rej == Rejected(s, s.resubQ)
                        s1 == [s EXCEPT !.resubQ = <<>>, !.userQ = @ \o keep,
@@ -618,7 +642,7 @@ ApplySessionPresent(s, sp) ==
         boundPids == {s2.ops[id].pid : id \in inUser} \ {0}
         s3 == [s2 EXCEPT !.alloc = FnDrop(@, boundPids),
                          !.ops = [id \in DOMAIN @ |-> IF id \in inUser THEN [@[id] EXCEPT !.pid = 0, !.pubrel = FALSE] ELSE @[id]],
-                         !.resubQ = SortIds(@), !.userQ = SortIds(@)]
+                         !.resubQ = IF "resubmit-unsorted" \in EngDefects THEN @ ELSE SortIds(@), !.userQ = SortIds(@)]
         panic == CASE s3.hpQ # <<>> -> "PANIC:connack-hpq"
                    [] DOMAIN s3.pendPub # {} -> "PANIC:connack-pendpub"
                    [] DOMAIN s3.pendNon # {} -> "PANIC:connack-pendnon"
@@ -680,7 +704,8 @@ HandlePacket(s, p) ==
                   IF id \notin DOMAIN s.ops THEN Ret(s, "ok", <<>>)
                   ELSE LET o == s.ops[id] IN
                        IF o.kind # "pub" \/ o.qos # 2 THEN Ret(s, "ProtocolError", <<>>)
-                       ELSE IF p.rc >= 128 THEN LET r == Succeed(s, id, AckRec(p, 0), "rx") IN Ret(r.s, r.err, r.evs)
+                       ELSE IF p.rc >= 128 \/ ("pubrec-nomatch-terminal" \in EngDefects /\ p.rc # 0)
+                            THEN LET r == Succeed(s, id, AckRec(p, 0), "rx") IN Ret(r.s, r.err, r.evs)
                        ELSE Ret([s EXCEPT !.ops[id].pubrel = TRUE, !.hpQ = Append(@, id)], "ok", <<>>)
       [] p.type = "PUBCOMP" ->
              IF early THEN Ret(s, "ProtocolError", <<>>)
